@@ -249,6 +249,7 @@ def st_apply_tx_batch():
                 ensures=[C("noop", "res is Err ==> *final(self) == *old(self)", "C02"),
                          C("errkind", "res is Err ==> !(res->Err_0 is WrongHeader)", "C06", char=True),
                          C("ok", "res is Ok ==> batch_result(*old(self), txx@, *final(self))", "C02", "C06", "C01"),
+                         C("stakes_kept", "res is Ok ==> forall|k: TxHash| old(self).stakes@.contains_key(k) ==> #[trigger] final(self).stakes@.contains_key(k)", "C13"),
                          C("markers", "res is Ok && markers_ok(old(self).coins@.coins) ==> markers_kept(old(self).coins@.coins, final(self).coins@.coins) && markers_ok(final(self).coins@.coins)", "C19")])
 
 def ts_iter():
@@ -256,6 +257,7 @@ def ts_iter():
 def ap_batch_impl():
     return dict(requires=[C("pre", "batch_pre(*this, txx@)")],
                 ensures=[C("ok", "res is Ok ==> batch_result(*this, txx@, res->Ok_0)", "C02", "C06", "C03", "C01"),
+                         C("stakes_kept", "res is Ok ==> forall|k: TxHash| this.stakes@.contains_key(k) ==> #[trigger] res->Ok_0.stakes@.contains_key(k)", "C13", note="a batch only adds stakes: every registered stake stays registered"),
                          C("markers", "res is Ok && markers_ok(this.coins@.coins) ==> markers_kept(this.coins@.coins, res->Ok_0.coins@.coins) && markers_ok(res->Ok_0.coins@.coins)", "C19",
                            note="no transaction can spend a faucet's dedup marker (nothing hashes to its all-zero covenant hash), so an accepted batch keeps every marker"),
                          C("errkind", "res is Err ==> !(res->Err_0 is WrongHeader)", "C06", char=True)])
